@@ -114,7 +114,8 @@ fn agg_sig_arm<const LM: usize>(op: u16, kind: u8, idx: usize, amount: u64) {
         G.p_n1 = key;
         G.p_n2 = msg;
     }
-    let key_ok = kb[0] != 0xEE && kb[0] != 0xC0;
+    // a key is acceptable iff it decodes as a point of the prime-order subgroup and is not infinity
+    let key_ok = kb[0] != 0xEE && kb[0] != 0xC0 && !stubs::pk_is_off_subgroup(&kb);
     let banned = idx == 7 && unsafe_banned(&mb, &TEST_CONSTANTS);
     let list = one_condition_args(&mut w.a, op, &[key, msg]);
     let mut o = run_empty(&mut w, spend, list, kind);
@@ -152,6 +153,7 @@ fn agg_sig_arm<const LM: usize>(op: u16, kind: u8, idx: usize, amount: u64) {
     kani::cover!(o.err.is_none() && w.flags & 0x1_0000 == 0);
     kani::cover!(o.err.is_none() && w.flags & 0x1_0000 != 0);
     kani::cover!(o.err == Some(ErrorCode::InvalidPublicKey) && kb[0] == 0xC0);
+    kani::cover!(o.err == Some(ErrorCode::InvalidPublicKey) && stubs::pk_is_off_subgroup(&kb), "off-subgroup key rejected");
     std::mem::forget(w);
 }
 
